@@ -247,7 +247,8 @@ fn get_swap_transactions<C: ContentAddrStore>(state: &UnsealedState<C>) -> Vec<T
             (tx.outputs[0].value.0 > 0).then_some(())?; // nothing to swap (and the pro-rata share would divide by zero)
             state.coins.get_coin(tx.output_coinid(0))?; // ensure that first output is unspent
             let pool_key = request_pool_key(&tx.data)?; // ensure that data contains a pool key
-            state.pools.get(&pool_key)?; // ensure that pool key points to a valid pool
+            let pool_state = state.pools.get(&pool_key)?; // ensure that pool key points to a valid pool
+            (pool_state.lefts > 0 && pool_state.rights > 0).then_some(())?; // an emptied pool has no price
             (tx.outputs[0].denom == pool_key.left() || tx.outputs[0].denom == pool_key.right())
                 .then_some(())?; // ensure that the first output is either left or right
             Some(tx)
